@@ -15,6 +15,13 @@ def fuzz(pkg, run, t="45s"):
     return {"pkg": pkg, "run": run, "kind": "fuzz", "tiers": ("thorough",), "fuzztime": {"thorough": t}}
 
 CHECKS = {
+    "C14": {
+        "level": "exploration",
+        "assumptions": ["frozen clock", "capacity-pressure histories keep requests >= 1 s apart (unique expiry order) and shorter than an entry's own lifetime", "both readings of 'nearest to expiry' (re-armed on use / fixed at creation) are accepted"],
+        "jobs": [
+            rapid("props/c14", "^TestC14_(RateProjection|RateCapacityPressure|ConnProjection|TTLMapModel)$", 1200, 12000, shards_t=8),
+        ],
+    },
     "C13": {
         "level": "exploration",
         "assumptions": ["all limiter time goes through the frozen clock", "idle time for full refill is computed with tau rounded up (never shorter than the statement's burst*period/average)"],
@@ -68,6 +75,11 @@ CHECKS = {
 
 # Texts for MANIFEST.json (level text, trusted base, technique) per claimed property.
 MANIFEST_TEXT = {
+    "C14": {
+        "level": "Non-interference by projection: generated interleavings of 2-6 sources are run once together and once per source alone on a fresh limiter along the same frozen time-line (rate limiter) or the same start/finish schedule through a gate handler (connection limiter, amounts 1-3, panicking handlers); decision sequences must be equal. Capacity pressure is checked in lock-step against a reference built from an eviction model plus one real single-source limiter per incarnation; the TTL map is checked against a reference map. Exploration of bounded histories.",
+        "note": "Trusts the eviction reference model (two accepted readings) and the frozen clock; ties in expiry are avoided by construction or resolved by probing.",
+        "technique": "property-based testing (rapid): projection/differential oracle against fresh single-source instances; model-based test of the TTL map",
+    },
     "C13": {
         "level": "Generated operation programs (advance, consume, same-instant floods, retry after exactly the advertised delay, idle burst*tau then consume, over-burst requests) on the public TokenBucketSet and on the HTTP limiter, for generated 1-3-rate sets under a frozen clock. Oracles: a metamorphic relation (deleting same-instant rejected requests changes no remaining decision or delay; two instances replayed along the same frozen time-line), sufficiency of the advertised delay, full-burst regain after idle, outright refusal of over-burst amounts. Exploration of bounded programs (<= 25 operations, floods up to 40).",
         "note": "Trusts the frozen clock; X-Retry-In is parsed with time.ParseDuration (Duration.String round-trips exactly).",
